@@ -124,8 +124,11 @@ class Code15(Code13):
                 co_lnotab += chr(0)
                 offset_diff -= 255
             while line_diff >= 256:
-                co_lnotab += chr(0)
+                # The address increment goes with the first line chunk: a pair with a
+                # zero address increment adds its lines to the *previous* address.
+                co_lnotab += chr(offset_diff)
                 co_lnotab += chr(255)
+                offset_diff = 0
                 line_diff -= 255
             co_lnotab += chr(offset_diff)
             co_lnotab += chr(line_diff)
